@@ -306,9 +306,9 @@ class C04(Check):
         for sc, st, be in combos:
             n = len(self._calls(sc, st, be))
             kinds = ["err", "diskfull", "kbd_before", "kbd_after", "sysexit_before"] if be == "local" else \
-                    ["transient", "permanent", "after_effect", "kbd_before", "kbd_after"]
+                    ["transient", "permanent", "after_effect", "applied_412", "kbd_before", "kbd_after"]
             if tier == "quick" and st != "ctx":
-                kinds = [k for k in kinds if k in ("err", "transient", "kbd_after", "after_effect")]
+                kinds = [k for k in kinds if k in ("err", "transient", "kbd_after", "after_effect", "applied_412")]
             group = 12
             for kind in kinds:
                 for i in range(0, n, group):
@@ -412,6 +412,9 @@ class C04(Check):
                         raise KeyboardInterrupt()
                     if kind in ("after_effect", "kbd_after") and n["i"] == idx:
                         n["pending"] = req.n
+                    if kind == "applied_412" and n["i"] == idx and req.op == "PUT" and \
+                            ("IfMatch" in req.kw or "IfNoneMatch" in req.kw):
+                        n["pending"] = req.n
 
             def s_after(req: Any) -> None:
                 if n.get("pending") == req.n:
@@ -419,6 +422,11 @@ class C04(Check):
                     if kind == "kbd_after":
                         ctx["fired"].append(req.brief() + " [after]")
                         raise KeyboardInterrupt()
+                    if kind == "applied_412":
+                        # the transport retried a conditional PUT whose first response was lost: the
+                        # retry meets the object the first attempt wrote and is answered 412
+                        ctx["fired"].append(req.brief() + " [applied, then answered 412]")
+                        raise client_error("PreconditionFailed", req.op, 412)
                     if req.op in ("PUT", "DELETE"):
                         ctx["fired"].append(req.brief() + " [applied, then client error]")
                         raise client_error("RequestTimeout", req.op, 500)
